@@ -101,11 +101,11 @@ func H_C19_cors(cfg int) {
 	h.dispatch(c, ra, vHdrReq(m2, u2, hdr2))
 	ht.dispatch(twin, rb, vHdrReq(m2, u2, hdr2))
 	verifObserveInt("status", ra.code())
-	verifObserveStr("headers", vHeaderString(ra.hdr))
-	if strings.Contains(vHeaderString(ra.hdr), HEADER_AccessControlAllowMethods) {
+	verifObserveStr("headers", vHeaderString(ra.out()))
+	if strings.Contains(vHeaderString(ra.out()), HEADER_AccessControlAllowMethods) {
 		verifCover("preflight-granted")
 	}
-	verifAssert(ra.code() == rb.code() && len(h.invoked) == len(ht.invoked) && vHeaderString(ra.hdr) == vHeaderString(rb.hdr),
+	verifAssert(ra.code() == rb.code() && len(h.invoked) == len(ht.invoked) && vHeaderString(ra.out()) == vHeaderString(rb.out()),
 		"C19: a request is answered differently after another request than on a fresh container")
 }
 
